@@ -25,7 +25,13 @@ import (
 
 type Rng struct{ s uint64 }
 
-func NewRng(seed uint64) *Rng { return &Rng{s: seed*0x9E3779B97F4A7C15 + 0x1234567} }
+func NewRng(seed uint64) *Rng {
+	// scramble the seed so that consecutive seeds give unrelated streams
+	z := (seed + 0x632BE59BD9B4E019) * 0xD1342543DE82EF95
+	z = (z ^ (z >> 32)) * 0xDA942042E4DD58B5
+	z = (z ^ (z >> 29)) * 0xBF58476D1CE4E5B9
+	return &Rng{s: z ^ (z >> 31)}
+}
 func (r *Rng) Next() uint64 {
 	r.s += 0x9E3779B97F4A7C15
 	z := r.s
